@@ -168,11 +168,15 @@ use rand_xoshiro::Xoshiro256PlusPlus;
 use serde_json::json;
 
 fn serde_case<H: HistT>(edges: Vec<f64>, label: &str, rng: &mut Xoshiro256PlusPlus, rep: &mut Report) {
-    rep.replays += 1;
     let h0 = match H::from_ranges(edges.clone()) {
         Ok(h) => h,
         Err(_) => return,
     };
+    serde_case_on::<H>(h0, edges, label, rng, rep)
+}
+
+fn serde_case_on<H: HistT>(h0: H, edges: Vec<f64>, label: &str, rng: &mut Xoshiro256PlusPlus, rep: &mut Report) {
+    rep.replays += 1;
     let lo = edges[0];
     let hi = edges[H::LEN];
     let sample = |rng: &mut Xoshiro256PlusPlus| -> f64 {
@@ -244,7 +248,14 @@ fn serde_family<H: HistT>(rng: &mut Xoshiro256PlusPlus, reps: usize, rep: &mut R
         serde_case::<H>((0..=n).map(|i| 1000.0 + i as f64 * 0.3).collect(), "1000+0.3i", rng, rep);
         // what with_const_width itself produces
         let (s0, s1) = (rng.random::<f64>() * 10.0 - 5.0, rng.random::<f64>() * 10.0 + 5.5);
-        serde_case::<H>(H::with_const_width(s0, s1).ranges(), "with_const_width", rng, rep);
+        serde_case::<H>(H::with_const_width(s0, s1).ranges(), "with_const_width edges via from_ranges", rng, rep);
+        // the histogram exactly as with_const_width built it (not re-built from its edges), on
+        // ranges whose step is not representable
+        for (a, b) in [(0.0, 1.0), (-3.0, 3.0), (s0, s1), (0.1, 0.7)] {
+            let h = H::with_const_width(a, b);
+            let e = h.ranges();
+            serde_case_on::<H>(h, e, "with_const_width", rng, rep);
+        }
         // random sorted edges with repeats
         let mut e: Vec<f64> = (0..=n).map(|_| (rng.random::<f64>() * 8.0).floor() / 3.0).collect();
         e.sort_by(|x, y| x.partial_cmp(y).unwrap());
